@@ -43,11 +43,13 @@ HostsEvil == {H_ex, H_evil}
 Hosts1 == {H_ex}
 Paths3 == {P_foo, P_foobar, P_foo_bar}
 Paths2 == {P_foo, P_foobar}
+Paths1 == {P_foo}
 Paths4 == {P_root, P_foo, P_foobar, P_foo_bar}
 Names1 == {N_a}
 Names2 == {N_a, N_b}
 DomNone == {<<>>}
 DomPlain == {<<>>, H_ex}
+DomEx == {H_ex}
 DomAll == {<<>>, H_ex, D_dot}
 PathNone == {<<>>}
 PathFoo == {<<>>, P_foo}
@@ -60,6 +62,7 @@ LPath(p) == [form |-> "path", sch |-> "", host |-> <<>>, path |-> p, qs |-> <<>>
 LAbs(s, h, p) == [form |-> "abs", sch |-> s, host |-> h, path |-> p, qs |-> <<>>]
 LocsLocal == {LPath(P_foo), LPath(P_foobar)}
 LocsLocal3 == {LPath(P_foo), LPath(P_foobar), LPath(P_foo_bar)}
+LocsX == {LPath(P_foobar), LAbs("http", H_sub, P_foo), LAbs("http", H_evil, P_foo)}
 LocsHosts == {LPath(P_foo), LAbs("http", H_sub, P_foo), LAbs("http", H_evil, P_foo), LAbs("https", H_ex, P_foobar)}
 LocsAll == {LPath(P_foo), LPath(P_foobar), LAbs("http", H_sub, P_foo), LAbs("http", H_evil, P_foo), LAbs("https", H_ex, P_foo_bar), LAbs("http", H_ex, P_foo)}
 CodesJar == {200}
@@ -71,6 +74,7 @@ CodesLoop4 == {200, 302, 303, 307}
 MGet == {"GET"}
 MAll == {"GET", "POST", "HEAD"}
 MGetPost == {"GET", "POST"}
+MPostHead == {"POST", "HEAD"}
 SHttp == {"http"}
 SBoth == {"http", "https"}
 RNo == {FALSE}
